@@ -43,7 +43,7 @@ CHECK = {
             "daemon read failures (F:1 / F:0: PinLsCid and PinLs answer an error — Status = cluster_error, StatusAll empty, RecoverAll must report it); a RecoverAll that "
             "overlaps later instructions (G = it reads the pinset now, Rs = the rest of it runs on that listing); "
             "seven generator profiles (mixed, queue pressure, churn on one cid, faulty daemon, recover rounds, noise, requeue = instructions for a cid the daemon already pins "
-            "while every worker is busy, so the new operation waits in the channel and is untracked / re-tracked there) and a corpus of boundary schedules; three of four generated "
+            "while every worker is busy, so the new operation waits in the channel and is untracked / re-tracked there) and a corpus of boundary schedules (round 8c: also a Track between the listing G and the rest Rs of an overlapping RecoverAll — re-track with another mode, of an errored cid, after an unpin_error, behind a full queue); three of four generated "
             "schedules are closed by a tail that answers every parked call until nothing is parked (a quiescent point), a RecoverAll, and the same again; "
             "one case = one schedule with the observation (Status per cid, StatusAll, daemon pin table with modes, shared pinset, parked calls, returned "
             "errors) at the stable point after every action; non-trivial = the schedule contains an instruction; distinct by case line",
@@ -79,10 +79,20 @@ META = {
             "cancelled-meanwhile paths), trackerStatus (type x phase), Operation.SetPhase / SetError / Cancel / Cancelled and the switch of recoverWithPinInfo over all 13 statuses as paths "
             "(literals in short-circuit order, actions), unknown syntax = .unknown = failed obligation; Model/C05T.lean interprets them and gen_table_* prove for ALL inputs that the executed "
             "table is the model's trackNew / retOk's Clean / startCall / retOk / retErr / reap / opStatus / recAction+recPin; the wrong guard 'dedupe also against an errored operation' is refuted as a table "
-            "(wrong_guard_table_refuted). The model is tied to the "
+            "(wrong_guard_table_refuted). Round 8c: the translator also reads the tracker's ENTRY POINTS (select with a non-blocking send, tagless switch, continue, one-level range loops, "
+            "position-dependent meaning of `err == nil`, RPC method names): enqueue (nil when ongoing / channel by type / send or ErrFullQueue + SetError + Cancel) = the model's enqueue "
+            "(gen_table_enqueue), Track's kind decision for every pin (meta / remote with the synchronous unpin and its two outcomes / local) = track (gen_table_track, gen_table_track_sync), "
+            "Untrack, Recover (GetExists else Status) = recover, RecoverAll (failed listing returned, loop leaves at the first error) = raLoop for every listing (gen_table_recoverAll), "
+            "Status's decision tree = statusR / statusOf on every state with the daemon's reads working or not (gen_table_status), addError, localStatus's per-pin switch = statusAllOf "
+            "(gen_table_localStatus), statusAll (localStatus, then the operation table laid over it, then the filter) = listingR (gen_table_statusAll); two wrong tables refuted (full-queue branch without SetError, channels swapped). Other overlaps than Recover x Untrack: a Track overlapping a Recover / "
+            "RecoverAll whose status read came first is harmless — the stale switch is deduplicated against the Track's operation even before its channel send (track_overlapping_recover_harmless, "
+            "all states of the interleaved system) and re-issues the pin recorded NOW (stale_pin_switch_uses_current_pin); a stale unpin_error switch after a completed Track un-pins again but ends in "
+            "pin_error and the next round re-pins (proved witness); a StatusAll torn between the daemon read and the table read (a worker completes in between) lists a pinned cid as unexpectedly_unpinned "
+            "and RecoverAll then re-pins the recorded pin (torn_statusAll_repin_harmless, torn_listing_entry_is_track). The last clause over WHOLE histories: every instruction of every history, of every pin kind, "
+            "satisfies `reported` at its return (history_full_queue_reported). The model is tied to the "
             "code by running thousands of scripted schedules on the real tracker against a gated fake daemon and comparing every stable-point observation with the "
             "model, and the Lean property clauses are evaluated on the implementation's own observations.",
     "note": "Trusted: Lean kernel, hand-written model/spec, the gated daemon and stable-point detection of the harness. The suspected defect 'a re-track with another mode "
             "is deduplicated' is real behaviour but ends in pin_error (Status asks the daemon for the recorded mode) and is repaired by recover: no finding.",
-    "technique": "decision tables of the operation tracker regenerated from the Go syntax tree and interpreted by the model (theorems for all inputs) + regenerated source text of the anchored functions and the function inventory of the anchored files checked against the transcribed snapshot (rfl) + Lean 4 inductive invariant over an LTS + schedule-level differential correspondence against a gated daemon",
+    "technique": "decision tables of the operation tracker and of the tracker's entry points (enqueue, Track, Untrack, Recover, RecoverAll, Status, statusAll, localStatus) regenerated from the Go syntax tree and interpreted by the model (theorems for all inputs) + regenerated source text of the anchored functions and the function inventory of the anchored files checked against the transcribed snapshot (rfl) + Lean 4 inductive invariant over an LTS + schedule-level differential correspondence against a gated daemon",
 }
